@@ -41,6 +41,8 @@ def do_call(obj, call):
             elif o[0] == "tell":
                 r = obj.tell()
         return r
+    if op == "paths":
+        return obj.paths()
     if op == "members":
         return obj.members()
     if op == "parse_line":
@@ -65,6 +67,9 @@ def main():
         files = {k: mkfile(v, name=v.get("name")) for k, v in desc.get("files", {}).items()}
         opaque = {k: mkfile(v) for k, v in desc.get("opaque", {}).items()}
         opener = OPENERS[desc["entry"]]
+        if desc["entry"] == "paths":
+            desc.setdefault("params", {})["exists"] = desc.get("fs_exists", [])
+            desc.setdefault("expect", dict(paths=True))
     except Exception:  # noqa: BLE001
         traceback.print_exc()
         print("REPLAY-ERROR could not set up")
@@ -87,6 +92,10 @@ def main():
     if "raises" in exp:
         print(f"MISMATCH returned normally (expected {exp['raises']})")
         return 1
+    if exp.get("paths"):
+        ok = not res["bad_modes"] and not res["changed"]
+        print(f"{'MATCH' if ok else 'MISMATCH'} open modes {res['bad_modes']} changed files {res['changed']}")
+        return 0 if ok else 1
     if "members" in exp:
         ok = [list(x) for x in res] == exp["members"]
         print(f"{'MATCH' if ok else 'MISMATCH'} members {res} expected {exp['members']}")
